@@ -387,6 +387,28 @@ func (x *Exec) wrapHooks(st *State, fr *Frame, name string, args []Val, pos stri
 			matched = append(matched, h)
 		}
 	}
+	if len(matched) > 0 {
+		// hooks restricted to sites where given locals are in scope
+		env0 := x.hookEnv(st, fr, nil)
+		var kept []*Hook
+		for _, h := range matched {
+			ok := true
+			for _, name := range h.Scope {
+				if env0.lookup == nil {
+					ok = false
+					break
+				}
+				if _, found := env0.lookup(name); !found {
+					ok = false
+					break
+				}
+			}
+			if ok {
+				kept = append(kept, h)
+			}
+		}
+		matched = kept
+	}
 	if len(matched) == 0 {
 		return k
 	}
